@@ -11,7 +11,9 @@ from harness.lib.core import VERIF, Ctx, lean_lock, run_driver, shrink_ops
 from harness.extract import filesystem as x_fs
 from harness.extract import fsxlate as x_fsm
 from harness.extract import filesystem_node as x_fsn
+from harness.extract import filesystem_callers as x_fsc
 from harness.rigs import filesystem as rig
+from harness.rigs import filesystem_callers as crig
 
 MANIFEST = {
     "text": "Lean 4 proof, by induction over arbitrary sequences of file-system requests, agent actions and ticks, that the model of "
@@ -79,8 +81,25 @@ MANIFEST = {
             "The routes of FileSystem._init_request_manager are GENERATED from its add_request calls (validator attributes resolved to the "
             "translated validators, lambdas / closures to the translated methods / handlers) and the model's step for delete / restore / "
             "create / access / pre_timestep / apply_timestep is proved to BE that composition (C15_gen_step_from_translated). "
-            "Still textual: the `_file_action` closure (dispatch into a file's own request manager), Folder._init_request_manager and the "
-            "nesting of the sub-managers (request-tree tables).",
+            "Second shift of round 7: the statement translator reads loops over list displays with starred elements / concatenated "
+            "dictionary views / list() / .copy() snapshots (order kept, snapshot vs live view distinguished) and expands private Folder "
+            "helpers `self._h(X)` in place, so a refactor of restore_file / _restoring_timestep is TRANSLATED and then either re-proved or "
+            "refuted: a counter-model search (Drivers/C15Xlate.lean, Model + Gen only, every folder over three file objects, "
+            "Inv-satisfying folders first) prints the folder on which a translated Folder method and the model differ; it proves nothing "
+            "and must find nothing when the theorems check. Callers OUTSIDE simulator/file_system are inventoried from every module of "
+            "src/primaite (Gen/FileSystemCallers.lean): nobody writes files / deleted_files / folders / deleted_folders / a route manager / "
+            "a deleted flag directly (C15_gen_callers_no_direct_dict_write), every method they call is a translated one "
+            "(C15_gen_callers_use_translated_methods), the only outside writers of the counters are the two ENCRYPT statements "
+            "(C15_gen_callers_counter_writers), the structural methods they use are exactly create_file / create_folder / delete_file / "
+            "copy_file (C15_gen_callers_covered) and each of these AS TRANSLATED keeps Inv for every state and argument, hence so does "
+            "every sequence of such calls (C15_callers_methods_preserve_inv, C15_callers_any_sequence_preserves_inv); rig family `callers` drives "
+            "exactly those callers on a real three-node network (DatabaseService backup / restore_backup / service fix, FTP store and "
+            "retrieve onto existing names, ransomware and data-manipulation attacks, C2 folder) interleaved with file requests, folder "
+            "restores and ticks and evaluates C15's oracle on every node after every step (no Lean model behind this family: an oracle "
+            "only). The `_file_action` closure is read structurally (lookup = the translated get_file on request[0], request[1]; "
+            "request[2:] handed to that file's manager) and the model's fsFileVerb step is proved to be that composition "
+            "(C15_gen_file_action). Still textual: the rows of the two request-tree tables (fsTree / folderTree: which key hangs under "
+            "which manager with which validator expression) and the item-verb registration of FileSystemItemABC (guard table).",
     "note": "C15-specific: health status, red-scan timers, sizes and file types are not modelled (no influence on structure "
             "or response status); no request "
             "path raises (after repair F-C05-2 a handler that lacks an option is answered `failure`: C15_no_request_raises, "
@@ -93,7 +112,7 @@ MANIFEST = {
 }
 MODULES = ["PrimaiteModel.Props.C15Keeps", "PrimaiteModel.Props.C15Loader", "PrimaiteModel.Props.C15", "PrimaiteModel.Props.C15Api", "PrimaiteModel.Props.C15Node", "PrimaiteModel.Props.C15Verbs",
            "PrimaiteModel.Props.C15Actions", "PrimaiteModel.Props.C15Inventory", "PrimaiteModel.Props.C15Disjoint",
-           "PrimaiteModel.Props.C15Health", "PrimaiteModel.Props.C15Create"]
+           "PrimaiteModel.Props.C15Health", "PrimaiteModel.Props.C15Create", "PrimaiteModel.Props.C15Callers"]
 EXE = "drv_c15"
 
 
@@ -138,7 +157,27 @@ def _op_sig(op: list) -> dict:
     return sig
 
 
+def _callers_only(case: dict):
+    """One case of the `callers` family (worker process): real DatabaseService / FTP / ransomware / data-manipulation code on a 3-node network."""
+    return crig.run_caller_case(case)
+
+
+def _report_callers(ctx: Ctx, name: str, case: dict, viol: list):
+    def fails(ops, case=case):
+        return bool(crig.run_caller_case(dict(case, ops=ops))[1])
+    small = dict(case, ops=shrink_ops(case["ops"], fails, budget=60))
+    trace, v2 = crig.run_caller_case(small)
+    if not v2:
+        small, (trace, v2) = case, crig.run_caller_case(case)
+    k, op, node, clauses = v2[0]
+    sig = {"op": op[0] if op else "setup", "kind": "oracle", "clause": clauses[0], "surface": "callers"}
+    ctx.violation(sig, f"C15 oracle fails on the file system of node {node} after op {k} {op} of a callers-outside-the-module trace: {clauses}",
+                  {"case": small, "trace": trace, "violations": [list(x) for x in v2], "from": name})
+
+
 def replay(rec: dict) -> bool:
+    if rec["replay"]["case"].get("surface") == "callers":
+        return not crig.run_caller_case(rec["replay"]["case"])[1]
     with lean_lock():
         from harness.lib.core import lake_build
         lake_build([EXE])
@@ -175,7 +214,28 @@ def run(ctx: Ctx):
         ctx.extract(x_fs.GEN_NAME, x_fs.emit)
         ctx.extract(x_fsm.GEN_NAME, x_fsm.emit)
         ctx.extract(x_fsn.GEN_NAME, x_fsn.emit)
+        ctx.extract(x_fsc.GEN_NAME, x_fsc.emit)
         ctx.prove(MODULES, exes=[EXE], clean=False, leanchecker=ctx.thorough)
+        # counter-model search for the translated Folder methods: turns a broken `C15_gen_restore_file / _add_file / _restoring_timestep /
+        # _lookups` proof into a readable folder (it proves nothing; when the theorems check it must find nothing). It needs Model + Gen only.
+        XNAME = "model:translated Folder methods agree with the model on every small folder (counter-model search)"
+        try:
+            import subprocess
+            from harness.lib.core import LEAN, lake_build
+            okb, outb = lake_build(["drv_c15xlate"])
+            if okb:
+                res = subprocess.run([str(LEAN / ".lake" / "build" / "bin" / "drv_c15xlate")], stdout=subprocess.PIPE, text=True, timeout=600)
+                found = [l for l in res.stdout.splitlines() if " counter-model " in l]
+                tried = [l for l in res.stdout.splitlines() if " ok " in l]
+                ctx.oblige(XNAME, "correspondence", not found and len(tried) == 6, " || ".join(found)[:3000] or res.stdout[:500])
+                for l in found:
+                    ctx.notes.append("REFUTED — counter-model of a translated Folder method: " + l[:1500])
+                ctx.count("counter-model-search:methods-agreeing", len(tried))
+                ctx.count("counter-model-search:methods-refuted", len(found))
+            else:
+                ctx.oblige(XNAME, "correspondence", False, "drv_c15xlate does not build (the translation was refused or does not elaborate): " + outb[-600:])
+        except Exception as e:
+            ctx.oblige(XNAME, "correspondence", False, f"{type(e).__name__}: {e}")
     ctx.cov["rule"] = ("case = (surface in {FileSystem.apply_request, Simulation.apply_request under a node, agent-action form_request, "
                        "`net` = a computer in a small network driven through sim.pre_timestep/apply_request/apply_timestep with power "
                        "requests, node scans and start-up/shut-down durations 0..3}, "
@@ -308,6 +368,30 @@ def run(ctx: Ctx):
             chunk = []
     if chunk:
         process(chunk)
+    # family `callers`: the code OUTSIDE simulator/file_system that reaches a file system through the Python API (inventory:
+    # Gen/FileSystemCallers.lean) — DatabaseService backup / restore_backup (service fix), FTP store / retrieve onto existing names,
+    # ransomware and data-manipulation attacks, C2 exfiltration folder — interleaved with file requests, folder restores and ticks on a
+    # real three-node network; C15's oracle (Inv + describe_state exact) is evaluated on every node's file system after every step.
+    t0 = time.time()
+    ccases = [(f"callers-fixed:{k}", c) for k, c in enumerate(crig.fixed_caller_cases())]
+    rngc = ctx.rng.fork("fs-callers")
+    ccases += [(f"callers:{k}", crig.gen_caller_case(rngc)) for k in range(ctx.scale(250, 4000))]
+    cres = pool.map(_callers_only, [c for _, c in ccases], chunksize=20) if pool else list(map(_callers_only, [c for _, c in ccases]))
+    cbad = 0
+    for (name, case), (trace, viol) in zip(ccases, cres):
+        ctx.cov["traces_validated_against_impl"] += 1
+        ctx.case(case, any(o[0] in ("db_restore", "db_fix", "ftp_send", "ransom", "data_manip") for o in case["ops"]))
+        ctx.count("surface:callers")
+        for o, t in zip(case["ops"], trace[-len(case["ops"]):] if case["ops"] else []):
+            ctx.count("op:callers:" + o[0])
+            ctx.count(f"answer:callers:{o[0]}:{str(t).split(' ')[-1][:24]}")
+        if viol:
+            cbad += 1
+            if cbad <= 2:
+                _report_callers(ctx, name, case, viol)
+    ctx.notes.append(f"callers family: {len(ccases)} traces in {time.time() - t0:.1f}s")
+    ctx.oblige("rig:callers outside the module keep Inv and describe_state exact on every trace", "correspondence", cbad == 0,
+               f"{cbad} of {len(ccases)} traces violate the oracle")
     if pool:
         pool.close()
         pool.join()
